@@ -13,8 +13,8 @@
 #include <stdatomic.h>
 #include <unistd.h>
 
-enum { K_SLEEP, K_PROVIDER, K_SOCKRECV, K_CTXRECV, K_DIAL, K_ACCEPT, K_STREAMRECV, K_SOCKSEND, K_PROTORECV, K_PROTOSEND, K_REQSEND, K_STREAMDIAL, K_NKINDS };
-static const char *kind_names[] = { "sleep", "provider", "sock-recv", "ctx-recv", "dial-aio", "stream-accept", "stream-recv", "sock-send", "proto-recv", "proto-send", "req-ctx-send", "stream-dial" };
+enum { K_SLEEP, K_PROVIDER, K_SOCKRECV, K_CTXRECV, K_DIAL, K_ACCEPT, K_STREAMRECV, K_SOCKSEND, K_PROTORECV, K_PROTOSEND, K_REQSEND, K_STREAMDIAL, K_SURVRECV, K_NKINDS };
+static const char *kind_names[] = { "sleep", "provider", "sock-recv", "ctx-recv", "dial-aio", "stream-accept", "stream-recv", "sock-send", "proto-recv", "proto-send", "req-ctx-send", "stream-dial", "surveyor-recv" };
 
 // K_PROTORECV / K_PROTOSEND: the receive / send path (and cancel function) of
 // further protocols; no conservation is demanded of these (lossy or fan-out)
@@ -47,6 +47,8 @@ typedef struct arec {
 	int             cancel_delay_us;
 	_Atomic uint64_t t_expire_pick; // last time the expire loop picked this aio (hook)
 	int             dwell_us;       // time the callback spends inside (widens "still running" windows)
+	bool            tmo_once;       // the aio's timeout is set once, at creation; resubmissions reuse it
+	_Atomic uint64_t surv_deadline; // K_SURVRECV: when the survey this receive belongs to expires (ns)
 	// K_SOCKSEND: result of every submission (index = submission number)
 	int             send_rv[40];
 	_Atomic int     send_seq; // submission number of the message now attached
@@ -58,6 +60,9 @@ typedef struct arec {
 typedef struct casectx {
 	int         kind;
 	int         sub; // protocol of K_PROTORECV / K_PROTOSEND
+	int         survey_ms; // K_SURVRECV
+	uint64_t    key_surv;
+	bool        surv_ctx;  // K_SURVRECV: contexts (else the socket, one record)
 	nng_socket  s, peer;
 	nng_ctx     ctx[8];
 	nng_dialer  dialer;
@@ -200,7 +205,10 @@ cb(void *arg)
 		}
 		break;
 	case NNG_ETIMEDOUT:
-		if (tmo < 0) {
+		if (r->kind == K_SURVRECV && atomic_load(&r->surv_deadline) != 0 && now + 1000000ULL >= atomic_load(&r->surv_deadline)) {
+			// the survey's own deadline ended this receive: legitimate
+			vf_stat("survey_deadline_timeouts", 1);
+		} else if (tmo < 0) {
 			snprintf(key, sizeof(key), "C02/timeout-without-timeout/%s", kind_names[r->kind]);
 			vf_violation(key, "%s: NNG_ETIMEDOUT but no timeout was configured (elapsed %.2f ms)", kind_names[r->kind], el_ms);
 		} else if (el_ms < (double) tmo - 1.0) {
@@ -310,7 +318,7 @@ cb(void *arg)
 			}
 		}
 	}
-	if (r->kind == K_SOCKRECV || r->kind == K_CTXRECV || r->kind == K_PROTORECV) {
+	if (r->kind == K_SOCKRECV || r->kind == K_CTXRECV || r->kind == K_PROTORECV || r->kind == K_SURVRECV) {
 		nng_msg *m = nng_aio_get_msg(r->aio);
 		if (rv == 0) {
 			if (m == NULL) {
@@ -346,9 +354,12 @@ static void
 submit(arec *r, bool from_cb)
 {
 	casectx *cx = r->cx;
-	int      tmo = from_cb ? r->resubmit_timeout : atomic_load(&r->timeout_ms);
+	int      tmo = (from_cb && !r->tmo_once) ? r->resubmit_timeout : atomic_load(&r->timeout_ms);
 	atomic_store(&r->timeout_ms, tmo);
-	nng_aio_set_timeout(r->aio, tmo < 0 ? NNG_DURATION_INFINITE : tmo);
+	if (!(from_cb && r->tmo_once)) {
+		// (an application that configures its aio once and re-uses it)
+		nng_aio_set_timeout(r->aio, tmo < 0 ? NNG_DURATION_INFINITE : tmo);
+	}
 	atomic_store(&r->t_submit, vf_now_ns());
 	atomic_fetch_add(&r->n_submit, 1);
 	switch (r->kind) {
@@ -415,6 +426,31 @@ submit(arec *r, bool from_cb)
 	case K_STREAMDIAL:
 		nng_stream_dialer_dial(cx->sd, r->aio);
 		break;
+	case K_SURVRECV: {
+		// a new survey before the first receive and before some later ones;
+		// the others are posted into whatever is left of the running survey
+		if (atomic_load(&r->n_submit) == 1 || vf_mix64(cx->key_surv ^ (uint64_t) atomic_load(&r->n_submit) ^ ((uint64_t) r->idx << 20)) % 3 != 0) {
+			nng_msg *m;
+			int      srv;
+			if (nng_msg_alloc(&m, 0) != 0) vf_harness_fail("msg alloc");
+			nng_msg_append_u32(m, (uint32_t) r->idx);
+			uint64_t t0 = vf_now_ns();
+			srv = cx->surv_ctx ? nng_ctx_sendmsg(cx->ctx[r->idx], m, NNG_FLAG_NONBLOCK) : nng_sendmsg(cx->s, m, NNG_FLAG_NONBLOCK);
+			if (srv != 0) {
+				nng_msg_free(m);
+			} else {
+				atomic_store(&r->surv_deadline, t0 + (uint64_t) cx->survey_ms * 1000000ULL);
+				vf_stat("surveys_sent", 1);
+			}
+		}
+		atomic_store(&r->t_submit, vf_now_ns());
+		if (cx->surv_ctx) {
+			nng_ctx_recv(cx->ctx[r->idx], r->aio);
+		} else {
+			nng_socket_recv(cx->s, r->aio);
+		}
+		break;
+	}
 	case K_STREAMRECV: {
 		nng_iov iov = { cx->rbuf[r->idx], 16 };
 		nng_aio_set_iov(r->aio, 1, &iov);
@@ -499,6 +535,13 @@ actor_thread(void *arg)
 			case K_DIAL: nng_dialer_close(cx->dialer); break;
 			case K_ACCEPT: nng_stream_listener_close(cx->sl); break;
 			case K_STREAMDIAL: nng_stream_dialer_close(cx->sd); break;
+			case K_SURVRECV:
+				if (cx->surv_ctx) {
+					nng_ctx_close(cx->ctx[best]);
+				} else {
+					nng_socket_close(cx->s);
+				}
+				break;
 			case K_STREAMRECV: nng_stream_close(cx->st_a); break;
 			default: break;
 			}
@@ -567,6 +610,21 @@ completer_thread(void *arg)
 			vf_usleep((int) vf_below(&p->rng, 800));
 		}
 		break;
+	case K_SURVRECV: {
+		// a respondent that answers about half of the surveys it sees
+		uint64_t end = vf_now_ns() + 400ULL * 1000000ULL;
+		while (vf_now_ns() < end) {
+			nng_msg *m = NULL;
+			if (nng_recvmsg(cx->peer, &m, 0) != 0) continue;
+			if (vf_chance(&p->rng, 1, 2)) {
+				vf_usleep((int) vf_below(&p->rng, 3000));
+				if (nng_sendmsg(cx->peer, m, 0) != 0) nng_msg_free(m);
+			} else {
+				nng_msg_free(m);
+			}
+		}
+		break;
+	}
 	case K_REQSEND:
 		// the requests wait for a connection: make one (or not)
 		if (p->ncomplete > 0) {
@@ -643,6 +701,7 @@ run_case(long idx, vf_rng *r)
 	if (cx->kind == K_PROTORECV || cx->kind == K_PROTOSEND) cx->nrec = (int) vf_range(r, 1, 3);
 	if (cx->kind == K_REQSEND) cx->nrec = (int) vf_range(r, 1, 4);
 	if (cx->kind == K_STREAMDIAL) cx->nrec = (int) vf_range(r, 1, 3);
+	if (cx->kind == K_SURVRECV) cx->nrec = (int) vf_range(r, 1, 3);
 
 	vf_pt_off();
 	if (pert == 1) vf_pt_jitter(vf_rand(r), (int) vf_range(r, 5, 60), (int) vf_range(r, 20, 300));
@@ -711,6 +770,18 @@ run_case(long idx, vf_rng *r)
 		if (vf_chance(r, 3, 4) && (rv = vf_connect(cx->s, cx->peer, tran)) != 0) vf_harness_fail("connect: %s", nng_strerror(rv));
 		break;
 	}
+	case K_SURVRECV:
+		if (nng_surveyor0_open(&cx->s) || nng_respondent0_open(&cx->peer)) vf_harness_fail("open");
+		cx->survey_ms = (int) vf_range(r, 30, 150);
+		cx->surv_ctx  = vf_chance(r, 2, 3);
+		cx->key_surv  = vf_rand(r);
+		nng_socket_set_ms(cx->s, NNG_OPT_SURVEYOR_SURVEYTIME, cx->survey_ms);
+		nng_socket_set_ms(cx->peer, NNG_OPT_RECVTIMEO, 20);
+		nng_socket_set_ms(cx->peer, NNG_OPT_SENDTIMEO, 100);
+		if ((rv = vf_connect(cx->s, cx->peer, tran)) != 0) vf_harness_fail("connect: %s", nng_strerror(rv));
+		if (!cx->surv_ctx) cx->nrec = 1;
+		for (int i = 0; cx->surv_ctx && i < cx->nrec; i++) nng_ctx_open(&cx->ctx[i], cx->s);
+		break;
 	case K_REQSEND:
 		if (nng_req0_open(&cx->s) || nng_rep0_open(&cx->peer)) vf_harness_fail("open");
 		for (int i = 0; i < cx->nrec; i++) nng_ctx_open(&cx->ctx[i], cx->s);
@@ -819,6 +890,16 @@ run_case(long idx, vf_rng *r)
 		a->resubmit_timeout = vf_chance(r, 1, 2) ? 10000 : (int) vf_range(r, 1, 30);
 		a->cancel_delay_us  = vf_chance(r, 1, 3) ? (int) vf_range(r, 100, 3000) : 0;
 		a->dwell_us         = vf_chance(r, 1, 2) ? (int) vf_range(r, 50, 500) : 0;
+		a->tmo_once         = vf_chance(r, 1, 3);
+		if (cx->kind == K_SURVRECV) {
+			// several receives per aio, some late in a survey (clamped to its
+			// deadline), some right after a new one; long own timeout half the time
+			a->resubmits_left = (int) vf_range(r, 2, 6);
+			a->tmo_once       = vf_chance(r, 2, 3);
+			if (vf_chance(r, 1, 2)) atomic_store(&a->timeout_ms, 5000);
+			a->resubmit_timeout = atomic_load(&a->timeout_ms) < 0 ? 5000 : atomic_load(&a->timeout_ms);
+			if (vf_chance(r, 1, 2)) a->dwell_us = (int) vf_range(r, 10000, cx->survey_ms * 900); // post the next receive late in the survey
+		}
 		if (mixed_batch) {
 			// same deadline for everybody; providers cancel slowly; the sleeps
 			// are cancelled / stopped right around the deadline
@@ -977,6 +1058,11 @@ run_case(long idx, vf_rng *r)
 	case K_SOCKSEND:
 	case K_PROTORECV:
 	case K_PROTOSEND:
+		nng_socket_close(cx->s);
+		nng_socket_close(cx->peer);
+		break;
+	case K_SURVRECV:
+		for (int i = 0; cx->surv_ctx && i < cx->nrec; i++) nng_ctx_close(cx->ctx[i]);
 		nng_socket_close(cx->s);
 		nng_socket_close(cx->peer);
 		break;
